@@ -38,6 +38,7 @@ from ..tlc import MachineryError, run_tlc
 
 DEVIATIONS = ["CountVoidStartTag", "AnyStartTagIncrements", "AnyEndTagDecrements",
               "VoidRemovableNeverCloses", "NoClose"]
+REGRESSION_CLASSES = ["FirstEndTagCloses", "EndTagFallsThrough", "StartEndTagOnlyStarts"]   # not as-built
 WHERE = ("html_extractor.py:_HtmlTreeBuilder.handle_starttag/handle_endtag/get_tree; "
          "epub_extractor.py:_XhtmlTextExtractor.handle_starttag/handle_endtag, _extract_chapter")
 NWORKERS = 8
@@ -63,7 +64,8 @@ def _theorems(ctx, alphabets):
     # sensitivity: each deviation alone, and the as-built combination, must break the invariant
     jobs = [(["CountVoidStartTag"], "AlphaQ1", 4), (["AnyStartTagIncrements"], "AlphaQ1", 5),
             (["AnyEndTagDecrements"], "AlphaQ1", 4), (["VoidRemovableNeverCloses"], "AlphaQ1", 4),
-            (["NoClose"], "AlphaQ2", 4), (["FirstEndTagCloses"], "AlphaQ4", 5), (DEVIATIONS, "AlphaQ1", 4)]
+            (["NoClose"], "AlphaQ2", 4), (["FirstEndTagCloses"], "AlphaQ4", 5), (["EndTagFallsThrough"], "AlphaQ5B", 5),
+            (["StartEndTagOnlyStarts"], "AlphaQ6", 3), (DEVIATIONS, "AlphaQ1", 4)]
     if ctx.thorough:
         jobs += [([d], "AlphaQ2", 5) for d in DEVIATIONS if d != "VoidRemovableNeverCloses"]
 
@@ -82,7 +84,7 @@ def _theorems(ctx, alphabets):
                     hit[key] = (a, r)
                     ev.tlc(f"HtmlSkip sensitivity: deviation {key} must break the invariant ({a} len<={n})", r,
                            note="expected violation; witness " + _witness(r))
-    missing = [d for d in DEVIATIONS + ["FirstEndTagCloses", "AsBuilt"] if d not in hit]
+    missing = [d for d in DEVIATIONS + REGRESSION_CLASSES + ["AsBuilt"] if d not in hit]
     if missing:
         raise MachineryError(f"sensitivity runs found no counterexample for {missing}: invariant vacuous or bound too small")
 
@@ -98,6 +100,10 @@ def _witness(r):
         return m.group(1)[:200]
 
 
+def _oblig(cls):
+    return "MUST" in cls or "MUSTNOT" in cls
+
+
 def _enumerate(ctx, alpha, n):
     dump = ctx.scratch / f"gen-{alpha}-{n}.dump"
     cfg = f"SPECIFICATION Spec\nCONSTANTS Alphabet <- {alpha}\n MaxLen = {n}\n"
@@ -107,7 +113,7 @@ def _enumerate(ctx, alpha, n):
     out = {}
     for s in iter_dump(path):
         toks = tuple((t["k"], t["n"]) for t in s["g"])
-        out[toks] = tuple(s["c"])
+        out[toks] = (tuple(s["c"]), tuple(s["cx"]))       # classification in the HTML / XML dialect
     if len(out) != r.distinct:
         raise MachineryError(f"dump has {len(out)} states, TLC reported {r.distinct}")
     path.unlink(missing_ok=True)
@@ -128,8 +134,8 @@ ATTRS = {
     "input": [' type="hidden" name="n" value="v"', ''],
     "source": [' src="a.mp4"'],
 }
-DOC_PRE = '<!DOCTYPE html><html><head><meta charset="utf-8"><title>doc</title></head><body>'
-DOC_POST = "</body></html>"
+DOC_HEAD = '<!DOCTYPE html><html><head><meta charset="utf-8"><title>doc</title>'
+DOC_POST = "</html>"
 
 
 def _compact(toks):
@@ -141,8 +147,9 @@ def _compact(toks):
     return "".join(parts)
 
 
-def render(toks, rng, plain=False):
-    """tokens -> (html text, {word: position}).  Positions are 1-based.  plain=True: shortest spelling."""
+def render(toks, rng, plain=False, inject=None):
+    """tokens -> (html text, {word: position}).  Positions are 1-based.  plain=True: shortest spelling.
+    inject = (j, literal): literal markup placed right after token j (frame glue such as </head>)."""
     salt = "".join(rng.choice("bcdfghjkmnpqrstvwxz") for _ in range(3))
     words, out = {}, []
     prev_word = False
@@ -173,6 +180,8 @@ def render(toks, rng, plain=False):
             elif not plain:
                 out.append(rng.choice(["", "", " ", "\n"]))
         out.append(s)
+        if inject and inject[0] == i:
+            out.append(inject[1])
         prev_word = is_text
     return "".join(out), words
 
@@ -274,19 +283,29 @@ def _worker(inp, outp):
     msgfx = _MsgFixture() if job["msgfile"] else None
     msg_skipped = 0
 
-    def frame(toks, force_bare=None):
-        """-> (full token list incl. lead word, html text, words, eof)"""
-        bare = force_bare if force_bare is not None else (rng.random() < 0.5 or toks[-1:] == [["A", ""]])
+    def frame(toks, w="html"):
+        """-> (full token list incl. the frame's own tokens, html text, words, eof).
+        bare: a leading text word puts the fragment in body context, the string is flush with end of input;
+        doc : <html><head>..</head><body> toks </body></html>, the <body> tags are tokens of the string;
+              EPUB only, every other time: the head carries <script src=".."/> (an empty element in XHTML)."""
+        bare = rng.random() < 0.5 or toks[-1:] == [["A", ""]]
+        if ["E", "body"] in toks:                      # </body> only means something inside a real <body>
+            bare = False
         if bare:
-            full = [["T", ""]] + toks           # a leading text word puts the fragment in body context
+            full = [["T", ""]] + toks
             html, words = render(full, rng)
             return full, html, words, True
-        html, words = render(toks, rng)
-        return toks, DOC_PRE + html + DOC_POST, words, False
+        if w == "epub" and rng.random() < 0.5:
+            full = [["X", "script"], ["S", "body"]] + toks + [["E", "body"]]
+            html, words = render(full, rng, inject=(1, "</head>"))
+            return full, DOC_HEAD + html + DOC_POST, words, False
+        full = [["S", "body"]] + toks + [["E", "body"]]
+        html, words = render(full, rng)
+        return full, DOC_HEAD + "</head>" + html + DOC_POST, words, False
 
     def add(w, full, eof, html, words, text):
         events.append({"a": "Obs", "w": w, "eof": eof, "toks": [{"k": k, "n": n} for k, n in full],
-                       "seen": project(text, words), "html": html})
+                       "seen": project(text, words), "html": html, "base": cur[0]})
 
     def guarded(fn):
         try:
@@ -294,15 +313,16 @@ def _worker(inp, outp):
         except Exception as e:          # an extractor must not fail on these inputs: empty observation
             return "EXC-" + type(e).__name__
 
+    cur = [None]
     for case in job["cases"]:
-        toks = case["toks"]
+        toks = cur[0] = case["toks"]
         sel = case["w"]
         if "html" in sel:
             full, html, words, eof = frame(toks)
             add("html", full, eof, html, words,
                 guarded(lambda: next(read_html(io.BytesIO(html.encode("utf-8")), path="x.html")).get_full_text()))
         if "msg" in sel:
-            full, html, words, eof = frame(toks)
+            full, html, words, eof = frame(toks, "msg")
             add("msg", full, eof, html, words, guarded(lambda: _html_to_text(html)))
         for w, enc in (("mhtml_b64", "base64"), ("mhtml_qp", "quoted-printable")):
             if w in sel:
@@ -311,8 +331,8 @@ def _worker(inp, outp):
                 add(w, full, eof, html, words,
                     guarded(lambda: next(read_mhtml(io.BytesIO(blob), path="x.mhtml")).get_full_text()))
         if "epub" in sel:
-            full, html, words, eof = frame(toks)
-            epub_q.append((full, eof, html, words))
+            full, html, words, eof = frame(toks, "epub")
+            epub_q.append((full, eof, html, words, toks))
         if "eml" in sel:
             full, html, words, eof = frame(toks)
             blob = _eml(html, rng.choice(["base64", "quoted-printable"]))
@@ -320,8 +340,9 @@ def _worker(inp, outp):
                 guarded(lambda: next(read_eml_format_mail(io.BytesIO(blob), path="x.eml")).get_full_text()))
         if "msgfile" in sel and msgfx is not None and msgfx.ok:
             bare = rng.random() < 0.5 or toks[-1:] == [["A", ""]]
-            body, words = render(toks, rng, plain=True)
-            html = "<html><body>" + body + ("" if bare else DOC_POST)
+            full = [["S", "body"]] + toks + ([] if bare else [["E", "body"]])
+            body, words = render(full, rng, plain=True)
+            html = "<html>" + body + ("" if bare else DOC_POST)
             if len(html) > msgfx.capacity():
                 msg_skipped += 1
             else:
@@ -329,14 +350,15 @@ def _worker(inp, outp):
                 if isinstance(res, str) or res.body_html.rstrip("\0 ") != html:
                     msg_skipped += 1            # the rewritten fixture did not carry the body: harness limit
                 else:
-                    add("msgfile", toks, bare, html, words, res.body_plain)
+                    add("msgfile", full, bare, html, words, res.body_plain)
     # EPUB: many chapters per book
     for k in range(0, len(epub_q), 100):
         batch = epub_q[k:k + 100]
         blob = _epub([b[2].encode("utf-8") for b in batch])
         res = guarded(lambda: next(read_epub(io.BytesIO(blob), path="x.epub")))
         by_href = {} if isinstance(res, str) else {c.href: c.text for c in res.chapters}
-        for i, (full, eof, html, words) in enumerate(batch):
+        for i, (full, eof, html, words, base) in enumerate(batch):
+            cur[0] = base
             add("epub", full, eof, html, words, by_href.get(f"OEBPS/c{i}.xhtml", "MISSING-CHAPTER"))
     Path(outp).write_text(json.dumps({"events": events, "msg_skipped": msg_skipped,
                                       "msgfile_ok": bool(msgfx and msgfx.ok)}))
@@ -468,7 +490,7 @@ def _report(ctx, traces, accepted, bad):
             what.append(f"removed content extracted (positions {leaked})")
         v.violation(what=f"{'; '.join(what) or 'observation rejected'} via {w}: {comp}   "
                          f"[{len(items)} rejected observations in this run]",
-                    case={"wrapper": w, "eof": e["eof"], "toks": e["toks"], "html": e["html"]},
+                    case={"wrapper": w, "eof": e["eof"], "toks": e["toks"], "base": e["base"], "html": e["html"]},
                     expected=cls, observed={"seen_positions": e["seen"]}, where=WHERE)
 
 
@@ -483,9 +505,7 @@ def _build_traces(events):
 def _replay(ctx):
     """./check C17 --replay <violation file>: validate exactly that document again."""
     case = json.loads(Path(ctx.replay).read_text())["case"]
-    toks = [[t["k"], t["n"]] for t in case["toks"]]
-    if case["eof"] and case["wrapper"] != "msgfile":
-        toks = toks[1:]                                   # the lead word is re-added by the frame
+    toks = case["base"]                                   # the enumerated string; the frame adds its own tokens
     cases = [{"toks": toks, "w": [case["wrapper"]]} for _ in range(60)]
     events, _, _ = _run_workers(ctx, cases, case["wrapper"] == "msgfile")
     traces = _build_traces(events)
@@ -506,12 +526,14 @@ def run(ctx):
         return _replay(ctx)
     # ---- 1. theorem + sensitivity
     if ctx.thorough:
-        theorem = [("AlphaQ1", 5), ("AlphaQ2", 5), ("AlphaQ3", 7), ("AlphaQ4", 6), ("AlphaT", 5), ("AlphaT2", 5)]
-        gens = [("AlphaT", 4, 0), ("AlphaT2", 4, 0), ("AlphaQ3", 6, 0), ("AlphaQ4", 5, 0), ("AlphaQ1", 5, 5), ("AlphaQ2", 5, 5)]
+        theorem = [("AlphaQ1", 5), ("AlphaQ2", 5), ("AlphaQ3", 7), ("AlphaQ4", 6), ("AlphaQ5B", 6), ("AlphaQ6", 5),
+                   ("AlphaT", 5), ("AlphaT2", 5)]
+        gens = [("AlphaT", 4, 0), ("AlphaT2", 4, 0), ("AlphaQ3", 6, 0), ("AlphaQ4", 5, 0), ("AlphaQ5", 5, 0),
+                ("AlphaQ6", 4, 0), ("AlphaQ1", 5, 5), ("AlphaQ2", 5, 5)]
         sample5, n_eml, n_msgfile = 40000, 5000, 1200
     else:
-        theorem = [("AlphaQ1", 4), ("AlphaQ2", 4), ("AlphaQ4", 5)]
-        gens = [("AlphaQ1", 4, 0), ("AlphaQ2", 4, 0), ("AlphaQ4", 5, 0)]
+        theorem = [("AlphaQ1", 4), ("AlphaQ2", 4), ("AlphaQ4", 5), ("AlphaQ5B", 5), ("AlphaQ6", 4)]
+        gens = [("AlphaQ1", 4, 0), ("AlphaQ2", 4, 0), ("AlphaQ4", 5, 0), ("AlphaQ5", 4, 0), ("AlphaQ6", 3, 0)]
         sample5, n_eml, n_msgfile = 0, 1200, 160
     _theorems(ctx, theorem)
     ctx.log(f"theorem + sensitivity runs done ({_t()}s)")
@@ -522,7 +544,7 @@ def run(ctx):
     for alpha, n, sampled_len in gens:
         got = _enumerate(ctx, alpha, n)
         if sampled_len:                                    # all strings up to 4, a seeded sample of the length-5 strings
-            k5 = sorted(k for k, c in got.items() if len(k) == 5 and k not in strings and ("MUST" in c or "MUSTNOT" in c))
+            k5 = sorted(k for k, c in got.items() if len(k) == 5 and k not in strings and _oblig(c[0] + c[1]))
             for k in rng.sample(k5, min(sample5, len(k5))):
                 strings[k] = got[k]
             strings.update({k: c for k, c in got.items() if len(k) < 5})
@@ -530,8 +552,8 @@ def run(ctx):
             strings.update(got)
     # a string without a MUST / MUSTNOT word carries no obligation: nothing to observe
     n_all = len(strings)
-    keys = sorted(k for k, c in strings.items() if "MUST" in c or "MUSTNOT" in c)
-    nontriv = [k for k in keys if "MUST" in strings[k] and "MUSTNOT" in strings[k]]
+    keys = sorted(k for k, c in strings.items() if _oblig(c[0] + c[1]))
+    nontriv = [k for k in keys if any("MUST" in c and "MUSTNOT" in c for c in strings[k])]
     ctx.log(f"{n_all} token strings enumerated, {len(keys)} with a MUST/MUSTNOT word are replayed, "
             f"{len(nontriv)} have both ({_t()}s)")
     for k in nontriv:
@@ -543,11 +565,15 @@ def run(ctx):
     msg_set = set(rng.sample(short, min(n_msgfile, len(short))))
     cases = []
     for k in keys:
-        w = ["html", "msg", "mhtml_b64", "mhtml_qp", "epub"]
-        if k in eml_set:
-            w.append("eml")
-        if k in msg_set:
-            w.append("msgfile")
+        w = []
+        if _oblig(strings[k][0]):                          # obligations in the HTML dialect
+            w += ["html", "msg", "mhtml_b64", "mhtml_qp"]
+            if k in eml_set:
+                w.append("eml")
+            if k in msg_set:
+                w.append("msgfile")
+        if _oblig(strings[k][1]):                          # obligations in the XML dialect (EPUB chapters)
+            w.append("epub")
         cases.append({"toks": [list(t) for t in k], "w": w})
 
     # ---- 3. replay through the library, 4. validate by TLC
